@@ -246,6 +246,15 @@ def make_ref(expr):
     # because it is used as a part of a parent expression, however,
     # we'll skip registering such names.
     if ref_name is None:
+        if expr.kind == "constant":
+            # Constants that differ only in the like-operand generate the same name. Sharing one variable is
+            # fine when the value and the type are the same; otherwise the name must be made unique.
+            other = expr.context._ref_values.get(ref)
+            if other is not None and other is not expr and other.kind == "constant":
+                v1, v2 = expr.operands[0], other.operands[0]
+                if type(v1) is type(v2) and repr(v1) == repr(v2) and expr.get_type().is_same(other.get_type()):
+                    return ref
+            return expr.context._register_reference(expr, ref)
         return ref
 
     return expr.context._register_reference(expr, ref)
